@@ -52,37 +52,158 @@ macro_rules! fmt_body {
     }};
 }
 
-macro_rules! fmt_harnesses {
-    ($( $h:ident => $F:ident, $tier:literal ; )*) => {
-        crate::harnesses! { $(
-            /// parse_number under one syntax-flag combination == reference grammar; strings len <= 6 over {0 1 9 + - e E . a}.
-            /// @prop C12 C10
-            /// @feat format radix_format
-            /// @bound format list (17 instantiated flag combinations); input length <= 6 over {0 1 9 + - e E . a}
-            /// @fn lexical-parse-float::parse::parse_number (flag-dependent branches)
-            /// @timeout 1500
-            #[cfg_attr(kani, kani::unwind(9))]
-            fn $h() { fmt_body!($F, 6) }
-        )* }
-    };
-}
+crate::harnesses! {
+    /// parse_number under syntax flags F_REQ_INT == documented grammar; strings len <= 5 over {0 1 9 + - e E . a}.
+    /// @prop C12 C10
+    /// @feat format radix_format
+    /// @bound one of 17 instantiated flag combinations; input length <= 5 over {0 1 9 + - e E . a}
+    /// @fn lexical-parse-float::parse::parse_number (flag-dependent branches)
+    /// @timeout 1500
+    #[cfg_attr(kani, kani::unwind(8))]
+    fn tokfmt_req_int() { fmt_body!(F_REQ_INT, 5) }
 
-fmt_harnesses! {
-    tokfmt_req_int => F_REQ_INT, "quick";
-    tokfmt_req_frac => F_REQ_FRAC, "quick";
-    tokfmt_noreq_expd => F_NOREQ_EXPD, "quick";
-    tokfmt_noreq_mant => F_NOREQ_MANT, "quick";
-    tokfmt_req_all => F_REQ_ALL, "quick";
-    tokfmt_no_exp => F_NO_EXP, "quick";
-    tokfmt_req_exp => F_REQ_EXP, "quick";
-    tokfmt_no_pos_exp => F_NO_POS_EXP, "quick";
-    tokfmt_req_exp_sign => F_REQ_EXP_SIGN, "quick";
-    tokfmt_no_exp_wo_frac => F_NO_EXP_WO_FRAC, "quick";
-    tokfmt_no_float_lz => F_NO_FLOAT_LZ, "quick";
-    tokfmt_cs_exp => F_CS_EXP, "quick";
-    tokfmt_req_exp_noreq_mant => F_REQ_EXP_NOREQ_MANT, "quick";
-    tokfmt_req_exp_req_sign => F_REQ_EXP_REQ_SIGN, "quick";
-    tokfmt_no_exp_wo_frac_req_frac => F_NO_EXP_WO_FRAC_REQ_FRAC, "quick";
-    tokfmt_no_lz_req_int => F_NO_LZ_REQ_INT, "quick";
-    tokfmt_noreq_any => F_NOREQ_ANY, "quick";
+    /// parse_number under syntax flags F_REQ_FRAC == documented grammar; strings len <= 5 over {0 1 9 + - e E . a}.
+    /// @prop C12 C10
+    /// @feat format radix_format
+    /// @bound one of 17 instantiated flag combinations; input length <= 5 over {0 1 9 + - e E . a}
+    /// @fn lexical-parse-float::parse::parse_number (flag-dependent branches)
+    /// @timeout 1500
+    #[cfg_attr(kani, kani::unwind(8))]
+    fn tokfmt_req_frac() { fmt_body!(F_REQ_FRAC, 5) }
+
+    /// parse_number under syntax flags F_NOREQ_EXPD == documented grammar; strings len <= 5 over {0 1 9 + - e E . a}.
+    /// @prop C12 C10
+    /// @feat format radix_format
+    /// @bound one of 17 instantiated flag combinations; input length <= 5 over {0 1 9 + - e E . a}
+    /// @fn lexical-parse-float::parse::parse_number (flag-dependent branches)
+    /// @timeout 1500
+    #[cfg_attr(kani, kani::unwind(8))]
+    fn tokfmt_noreq_expd() { fmt_body!(F_NOREQ_EXPD, 5) }
+
+    /// parse_number under syntax flags F_NOREQ_MANT == documented grammar; strings len <= 5 over {0 1 9 + - e E . a}.
+    /// @prop C12 C10
+    /// @feat format radix_format
+    /// @bound one of 17 instantiated flag combinations; input length <= 5 over {0 1 9 + - e E . a}
+    /// @fn lexical-parse-float::parse::parse_number (flag-dependent branches)
+    /// @timeout 1500
+    #[cfg_attr(kani, kani::unwind(8))]
+    fn tokfmt_noreq_mant() { fmt_body!(F_NOREQ_MANT, 5) }
+
+    /// parse_number under syntax flags F_REQ_ALL == documented grammar; strings len <= 5 over {0 1 9 + - e E . a}.
+    /// @prop C12 C10
+    /// @feat format radix_format
+    /// @bound one of 17 instantiated flag combinations; input length <= 5 over {0 1 9 + - e E . a}
+    /// @fn lexical-parse-float::parse::parse_number (flag-dependent branches)
+    /// @timeout 1500
+    #[cfg_attr(kani, kani::unwind(8))]
+    fn tokfmt_req_all() { fmt_body!(F_REQ_ALL, 5) }
+
+    /// parse_number under syntax flags F_NO_EXP == documented grammar; strings len <= 5 over {0 1 9 + - e E . a}.
+    /// @prop C12 C10
+    /// @feat format radix_format
+    /// @bound one of 17 instantiated flag combinations; input length <= 5 over {0 1 9 + - e E . a}
+    /// @fn lexical-parse-float::parse::parse_number (flag-dependent branches)
+    /// @timeout 1500
+    #[cfg_attr(kani, kani::unwind(8))]
+    fn tokfmt_no_exp() { fmt_body!(F_NO_EXP, 5) }
+
+    /// parse_number under syntax flags F_REQ_EXP == documented grammar; strings len <= 5 over {0 1 9 + - e E . a}.
+    /// @prop C12 C10
+    /// @feat format radix_format
+    /// @bound one of 17 instantiated flag combinations; input length <= 5 over {0 1 9 + - e E . a}
+    /// @fn lexical-parse-float::parse::parse_number (flag-dependent branches)
+    /// @timeout 1500
+    #[cfg_attr(kani, kani::unwind(8))]
+    fn tokfmt_req_exp() { fmt_body!(F_REQ_EXP, 5) }
+
+    /// parse_number under syntax flags F_NO_POS_EXP == documented grammar; strings len <= 5 over {0 1 9 + - e E . a}.
+    /// @prop C12 C10
+    /// @feat format radix_format
+    /// @bound one of 17 instantiated flag combinations; input length <= 5 over {0 1 9 + - e E . a}
+    /// @fn lexical-parse-float::parse::parse_number (flag-dependent branches)
+    /// @timeout 1500
+    #[cfg_attr(kani, kani::unwind(8))]
+    fn tokfmt_no_pos_exp() { fmt_body!(F_NO_POS_EXP, 5) }
+
+    /// parse_number under syntax flags F_REQ_EXP_SIGN == documented grammar; strings len <= 5 over {0 1 9 + - e E . a}.
+    /// @prop C12 C10
+    /// @feat format radix_format
+    /// @bound one of 17 instantiated flag combinations; input length <= 5 over {0 1 9 + - e E . a}
+    /// @fn lexical-parse-float::parse::parse_number (flag-dependent branches)
+    /// @timeout 1500
+    #[cfg_attr(kani, kani::unwind(8))]
+    fn tokfmt_req_exp_sign() { fmt_body!(F_REQ_EXP_SIGN, 5) }
+
+    /// parse_number under syntax flags F_NO_EXP_WO_FRAC == documented grammar; strings len <= 5 over {0 1 9 + - e E . a}.
+    /// @prop C12 C10
+    /// @feat format radix_format
+    /// @bound one of 17 instantiated flag combinations; input length <= 5 over {0 1 9 + - e E . a}
+    /// @fn lexical-parse-float::parse::parse_number (flag-dependent branches)
+    /// @timeout 1500
+    #[cfg_attr(kani, kani::unwind(8))]
+    fn tokfmt_no_exp_wo_frac() { fmt_body!(F_NO_EXP_WO_FRAC, 5) }
+
+    /// parse_number under syntax flags F_NO_FLOAT_LZ == documented grammar; strings len <= 5 over {0 1 9 + - e E . a}.
+    /// @prop C12 C10
+    /// @feat format radix_format
+    /// @bound one of 17 instantiated flag combinations; input length <= 5 over {0 1 9 + - e E . a}
+    /// @fn lexical-parse-float::parse::parse_number (flag-dependent branches)
+    /// @timeout 1500
+    #[cfg_attr(kani, kani::unwind(8))]
+    fn tokfmt_no_float_lz() { fmt_body!(F_NO_FLOAT_LZ, 5) }
+
+    /// parse_number under syntax flags F_CS_EXP == documented grammar; strings len <= 5 over {0 1 9 + - e E . a}.
+    /// @prop C12 C10
+    /// @feat format radix_format
+    /// @bound one of 17 instantiated flag combinations; input length <= 5 over {0 1 9 + - e E . a}
+    /// @fn lexical-parse-float::parse::parse_number (flag-dependent branches)
+    /// @timeout 1500
+    #[cfg_attr(kani, kani::unwind(8))]
+    fn tokfmt_cs_exp() { fmt_body!(F_CS_EXP, 5) }
+
+    /// parse_number under syntax flags F_REQ_EXP_NOREQ_MANT == documented grammar; strings len <= 5 over {0 1 9 + - e E . a}.
+    /// @prop C12 C10
+    /// @feat format radix_format
+    /// @bound one of 17 instantiated flag combinations; input length <= 5 over {0 1 9 + - e E . a}
+    /// @fn lexical-parse-float::parse::parse_number (flag-dependent branches)
+    /// @timeout 1500
+    #[cfg_attr(kani, kani::unwind(8))]
+    fn tokfmt_req_exp_noreq_mant() { fmt_body!(F_REQ_EXP_NOREQ_MANT, 5) }
+
+    /// parse_number under syntax flags F_REQ_EXP_REQ_SIGN == documented grammar; strings len <= 5 over {0 1 9 + - e E . a}.
+    /// @prop C12 C10
+    /// @feat format radix_format
+    /// @bound one of 17 instantiated flag combinations; input length <= 5 over {0 1 9 + - e E . a}
+    /// @fn lexical-parse-float::parse::parse_number (flag-dependent branches)
+    /// @timeout 1500
+    #[cfg_attr(kani, kani::unwind(8))]
+    fn tokfmt_req_exp_req_sign() { fmt_body!(F_REQ_EXP_REQ_SIGN, 5) }
+
+    /// parse_number under syntax flags F_NO_EXP_WO_FRAC_REQ_FRAC == documented grammar; strings len <= 5 over {0 1 9 + - e E . a}.
+    /// @prop C12 C10
+    /// @feat format radix_format
+    /// @bound one of 17 instantiated flag combinations; input length <= 5 over {0 1 9 + - e E . a}
+    /// @fn lexical-parse-float::parse::parse_number (flag-dependent branches)
+    /// @timeout 1500
+    #[cfg_attr(kani, kani::unwind(8))]
+    fn tokfmt_no_exp_wo_frac_req_frac() { fmt_body!(F_NO_EXP_WO_FRAC_REQ_FRAC, 5) }
+
+    /// parse_number under syntax flags F_NO_LZ_REQ_INT == documented grammar; strings len <= 5 over {0 1 9 + - e E . a}.
+    /// @prop C12 C10
+    /// @feat format radix_format
+    /// @bound one of 17 instantiated flag combinations; input length <= 5 over {0 1 9 + - e E . a}
+    /// @fn lexical-parse-float::parse::parse_number (flag-dependent branches)
+    /// @timeout 1500
+    #[cfg_attr(kani, kani::unwind(8))]
+    fn tokfmt_no_lz_req_int() { fmt_body!(F_NO_LZ_REQ_INT, 5) }
+
+    /// parse_number under syntax flags F_NOREQ_ANY == documented grammar; strings len <= 5 over {0 1 9 + - e E . a}.
+    /// @prop C12 C10
+    /// @feat format radix_format
+    /// @bound one of 17 instantiated flag combinations; input length <= 5 over {0 1 9 + - e E . a}
+    /// @fn lexical-parse-float::parse::parse_number (flag-dependent branches)
+    /// @timeout 1500
+    #[cfg_attr(kani, kani::unwind(8))]
+    fn tokfmt_noreq_any() { fmt_body!(F_NOREQ_ANY, 5) }
+
 }
